@@ -128,7 +128,7 @@ func runSched(c *kit.Ctx) {
 	}
 	n := c.N(4000, 600000)
 	if c.Mode == "race" {
-		n = c.N(600, 60000)
+		n = c.N(600, 30000)
 	}
 	for i := 0; i < n; i++ {
 		kind := kindOf(i)
